@@ -768,7 +768,7 @@ func TestVerifC13PresentedOnTheWire(t *testing.T) {
 	// two triples of contexts, every ordered arrangement of each:
 	//   {cn=a.com, -} {san=*.a.com, h2} {b.com/c.org, http/1.1}   and   {b.com/c.org, -} {z.net/s.org, h2} {z.net/s.org, http/1.1}
 	triples := [][]int{{0, 4, 8}, {6, 10, 11}}
-	snis := []string{"a.com", "x.a.com", "y.x.a.com", "b.com", "c.org", "d.org", "A.COM", ""}
+	snis := []string{"a.com", "x.a.com", "y.x.a.com", "b.com", "c.org", "d.org", "A.COM", "", "x.A.com", "X.a.COM", "q.Z.Net"}
 	alpns := [][]string{nil, {"h2"}, {"http/1.1"}}
 	perms := [][]int{{0, 1, 2}, {0, 2, 1}, {1, 0, 2}, {1, 2, 0}, {2, 0, 1}, {2, 1, 0}}
 	seen := 0
